@@ -3,7 +3,9 @@ package main
 import (
 	"errors"
 	"fmt"
+	"os"
 	"sort"
+	"time"
 
 	theine "github.com/Yiling-J/theine-go"
 	"github.com/Yiling-J/theine-go/internal"
@@ -60,6 +62,13 @@ func genC12(g *gen, tier string) *Scenario {
 			ops = append(ops, Op{Kind: "get", Key: op.Key})
 		}
 	}
+	if (tier == "thorough" && g.pct(2)) || os.Getenv("VERIF_FORCE_MULTIBLOCK") != "" {
+		// a stream spanning several 4 MiB blocks: ~170 k entries
+		sc.Family = "stream-multi-block"
+		sc.Cache.MaxSize = 400000
+		sc.Cache.WriteChan, sc.Cache.WriteBuf = 64, 128
+		ops = append(ops, Op{Kind: "xfill", Key: 5000, N: g.rng(200000, 260000), TTL: 40 * 86400 * sec})
+	}
 	sc.Clients = [][]Op{ops}
 	sc.Params["version"] = int64(g.rng(0, 3))
 	sc.Params["altversion"] = sc.Params["version"] + int64(g.rng(1, 5))
@@ -100,6 +109,10 @@ func setupC12(env *simEnv) {
 	rd := env.rd
 	env.customOp = func(op Op, rec *Rec) {
 		if simrt.RaceEnabled {
+			return
+		}
+		if op.Kind == "xfill" {
+			fillCache(env, op)
 			return
 		}
 		version := uint64(rd.Sc.Params["version"])
@@ -221,7 +234,11 @@ func setupC12(env *simEnv) {
 			}
 		}
 		// 0. the undamaged stream loads, also through short reads; wrong version is refused
-		for _, chunk := range []int{0, 1, 3, 7, 64} {
+		chunks := []int{0, 1, 3, 7, 64}
+		if len(stream) > 64<<10 {
+			chunks = []int{0, 4093}
+		}
+		for _, chunk := range chunks {
 			res := load(stream, version, chunk, -1)
 			if res.err != nil || res.panicked != "" {
 				rd.violate("C12/clean-stream-rejected", fmt.Sprintf("the undamaged stream (read in chunks of %d) was not loaded: err=%v panic=%s", chunk, res.err, res.panicked))
@@ -238,17 +255,64 @@ func setupC12(env *simEnv) {
 		probeN("c12.saved-entries", len(saved))
 
 		L := len(stream)
+		// streams up to 64 KiB: every position. Larger (multi-block) streams: every position in the
+		// first 512 and last 256 bytes and within 64 bytes of every write boundary, plus 300 seeded ones.
+		exhaustive := L <= 64<<10
+		var positions []int
+		if exhaustive {
+			for i := 0; i < L; i++ {
+				positions = append(positions, i)
+			}
+		} else {
+			seen := map[int]bool{}
+			add := func(i int) {
+				if i >= 0 && i < L && !seen[i] {
+					seen[i] = true
+					positions = append(positions, i)
+				}
+			}
+			for i := 0; i < 512; i++ {
+				add(i)
+			}
+			for i := L - 256; i < L; i++ {
+				add(i)
+			}
+			for _, b := range bounds {
+				for d := -64; d <= 64; d += 4 {
+					add(b + d)
+				}
+				add(b - 1)
+				add(b)
+				add(b + 1)
+			}
+			for i := 0; i < 300; i++ {
+				add(simrt.MiscRng().Intn(L))
+			}
+			sort.Ints(positions)
+			// a load of a multi-block stream costs ~0.1 s: thin the set to about 700 positions
+			for len(positions) > 400 {
+				var thin []int
+				for i, x := range positions {
+					if i%2 == 0 {
+						thin = append(thin, x)
+					}
+				}
+				positions = thin
+			}
+			probe("c12.multi-block-stream")
+		}
 		// 1. crash during save: every truncation offset
-		for n := 0; n < L; n++ {
+		for _, n := range positions {
 			judge("truncated", true, false, load(stream[:n], version, 0, -1))
 			if n%4 == 0 {
 				judge("truncated", true, true, load(stream[:n], alt, 0, -1))
 			}
 		}
-		probeN("c12.truncations", L)
+		probeN("c12.truncations", len(positions))
 		// reader fails at offset n (the bytes are intact, the device is not)
-		for n := 0; n < L; n += 3 {
-			r := load(stream, version, 16, n)
+		for pi := 0; pi < len(positions); pi += 3 {
+			n := positions[pi]
+			r := load(stream, version, 4096, n)
 			if r.err == nil {
 				rd.violate("C12/read-error-swallowed", fmt.Sprintf("the reader failed at offset %d of %d but LoadCache returned nil", n, L))
 			}
@@ -259,8 +323,11 @@ func setupC12(env *simEnv) {
 		}
 		// 2. bit rot: every single-bit flip at every byte
 		buf := make([]byte, L)
-		for i := 0; i < L; i++ {
+		for _, i := range positions {
 			for bit := 0; bit < 8; bit++ {
+				if !exhaustive && bit != i%8 && bit != (i/8)%8 {
+					continue // large stream: two bits per sampled byte
+				}
 				copy(buf, stream)
 				buf[i] ^= 1 << bit
 				judge("bit-flip", false, false, load(buf, version, 0, -1))
@@ -269,9 +336,16 @@ func setupC12(env *simEnv) {
 				}
 			}
 		}
-		probeN("c12.bit-flips", 8*L)
+		if exhaustive {
+			probeN("c12.bit-flips", 8*L)
+		} else {
+			probeN("c12.bit-flips", 2*len(positions))
+		}
 		// single-byte overwrites
-		for i := 0; i < L; i++ {
+		for pi, i := range positions {
+			if !exhaustive && pi%3 != 0 {
+				continue
+			}
 			for _, nv := range []byte{0x00, 0xff, byte(simrt.MiscRng().Intn(256))} {
 				if nv == stream[i] {
 					continue
@@ -281,9 +355,12 @@ func setupC12(env *simEnv) {
 				judge("byte-overwrite", false, false, load(buf, version, 0, -1))
 			}
 		}
-		probeN("c12.byte-overwrites", 3*L)
+		probeN("c12.byte-overwrites", 3*len(positions))
 		// multi-byte damage
 		nmulti := 300
+		if !exhaustive {
+			nmulti = 60
+		}
 		for i := 0; i < nmulti; i++ {
 			copy(buf, stream)
 			at := simrt.MiscRng().Intn(L)
@@ -346,6 +423,22 @@ func setupC12(env *simEnv) {
 		probeN("c12.segments", ns)
 		rd.Evals = evals
 		rd.Nontrivial = 1
-		rd.Extra = map[string]any{"stream_bytes": L, "segments": ns, "saved_entries": len(saved), "loads": evals}
+		rd.Extra = map[string]any{"exhaustive_positions": exhaustive, "stream_bytes": L, "segments": ns, "saved_entries": len(saved), "loads": evals}
 	}
+}
+
+
+// fillCache stores op.N distinct keys starting at op.Key (every seventh with the TTL op.TTL).
+func fillCache(env *simEnv, op Op) {
+	for i := 0; i < op.N; i++ {
+		var ttl int64
+		if i%7 == 0 {
+			ttl = op.TTL
+		}
+		env.api.set(op.Key+i, int64(op.Key+i)<<8|3, 1, time.Duration(ttl))
+		if i%512 == 0 {
+			env.api.wait()
+		}
+	}
+	env.api.wait()
 }
